@@ -12,6 +12,7 @@ import (
 	"errors"
 	"fmt"
 	"io"
+	"strings"
 	"sync"
 	"time"
 
@@ -74,7 +75,7 @@ func initUniverse() {
 			panic(err)
 		}
 		routetab.PendingTimeout = time.Hour // the background pending-GC must never fire inside a case
-		routetab.VerifSetFindTimeout(2 * time.Millisecond)
+		routetab.VerifSetFindTimeout(shortFindTimeout)
 		for i := 0; i < universe; i++ {
 			seed := sha256.Sum256([]byte(fmt.Sprintf("verif-c28-node-%d", i)))
 			pk := crypto.Secp256k1PrivateKeyFromBytes(seed[:])
@@ -175,6 +176,12 @@ func (c *capStreamer) NewConnChainRelayStream(context.Context, boson.Address, p2
 	return nil, errors.New("no relay stream in the harness")
 }
 
+func (c *capStreamer) count() int {
+	c.mu.Lock()
+	defer c.mu.Unlock()
+	return len(c.streams)
+}
+
 // take returns and clears what was written since the last call.  protobuf.WriteMsgWithContext
 // writes from a goroutine and returns early when its context has expired (FindRoute's timeout), so
 // a stream may have been opened but not written yet: wait until every opened stream holds its
@@ -240,6 +247,7 @@ type simNode struct {
 	svc    *routetab.Service
 	kad    *kademlia.Kad
 	book   addressbook.Interface // routetab's address book (kademlia has its own)
+	kbook  addressbook.Interface // kademlia's address book
 	str    *capStreamer
 	cancel context.CancelFunc
 	nbrs   []int
@@ -281,7 +289,158 @@ func newSimNode(self int, nbrs []int, class []int, book []int) *simNode {
 	ctx, cancel := context.WithCancel(context.Background())
 	svc := routetab.New(ids[self].overlay, ctx, p2ps, str, rtBook, networkID, lightnode.NewContainer(ids[self].overlay), kad,
 		mockstate.NewStateStore(), logger, routetab.Options{})
-	return &simNode{self: self, svc: svc, kad: kad, book: rtBook, str: str, cancel: cancel, nbrs: nbrs}
+	return &simNode{self: self, svc: svc, kad: kad, book: rtBook, kbook: kadBook, str: str, cancel: cancel, nbrs: append([]int(nil), nbrs...)}
+}
+
+// link / unlink: the topology changes while the node runs (network-level ops nlink / nunlink).
+func (n *simNode) link(nb int, public bool) {
+	if contains(n.nbrs, nb) {
+		return
+	}
+	if err := n.kbook.Put(ids[nb].overlay, *ids[nb].addr); err != nil {
+		panic(err)
+	}
+	if err := n.kad.Connected(context.Background(), p2p.Peer{Address: ids[nb].overlay, Mode: full}, true); err != nil {
+		panic(err)
+	}
+	st := p2p.ReachabilityStatusPrivate
+	if public {
+		st = p2p.ReachabilityStatusPublic
+	}
+	n.kad.Reachable(ids[nb].overlay, st)
+	_ = n.book.Put(ids[nb].overlay, *ids[nb].addr)
+	n.nbrs = append(n.nbrs, nb)
+}
+
+func (n *simNode) unlink(nb int) {
+	if !contains(n.nbrs, nb) {
+		return
+	}
+	if err := n.kad.DisconnectForce(ids[nb].overlay, "link down"); err != nil {
+		panic(err)
+	}
+	var keep []int
+	for _, v := range n.nbrs {
+		if v != nb {
+			keep = append(keep, v)
+		}
+	}
+	n.nbrs = keep
+}
+
+// expectForward: how many neighbours FindRoute(target) will ask (getNeighbor with NeighborAlpha,
+// skipping the target), computed from Kademlia's candidate list.
+func (n *simNode) expectForward(target, alpha int) int {
+	c, cl := n.candidates(ids[target].overlay)
+	direct, nd := 0, 0
+	for i, v := range c {
+		if v == target {
+			continue
+		}
+		switch cl[i] {
+		case 0:
+			direct++
+		case 1:
+			nd++
+		}
+	}
+	if direct >= alpha {
+		return alpha
+	}
+	if nd > alpha-direct {
+		nd = alpha - direct
+	}
+	return direct + nd
+}
+
+// selfPending: pending-table entries for target that belong to a FindRoute of this node (source =
+// self, with a result channel).  They appear while FindRoute registers its requests and disappear
+// when a response for the target is handled (which signals the channel) or FindRoute gives up.
+func (n *simNode) selfPending(target int) int {
+	c := 0
+	for _, it := range n.svc.VerifPendingCalls().VerifResp()[common.BytesToHash(ids[target].overlay.Bytes())] {
+		if it.ResCh != nil && it.Src.Equal(ids[n.self].overlay) {
+			c++
+		}
+	}
+	return c
+}
+
+// reqLogged: entries of the request log (target, next) for this target.
+func (n *simNode) reqLogged(target int) int {
+	c, pre := 0, ids[target].overlay.String()
+	for _, k := range n.svc.VerifPendingCalls().VerifReqKeys() {
+		if strings.HasPrefix(k, pre) {
+			c++
+		}
+	}
+	return c
+}
+
+const (
+	longFindTimeout  = 30 * time.Second
+	shortFindTimeout = 2 * time.Millisecond
+)
+
+// relayRun delivers a relay request to the node's handler `name` on its own goroutine.  If the
+// handler runs a route discovery (GetNextHopRandomOrFind -> FindRoute) and blocks waiting for a
+// response, `during` is called while it is parked: the caller delivers messages (to this or other
+// nodes).  If no response for the target has signalled the waiting FindRoute when `during`
+// returns, the handler's context is cancelled (FindRoute gives up exactly as on its timeout).
+// Returns whether the handler was parked.  nForward = expectForward(target).  The caller has emptied the
+// node's capturing streamer or knows what is in it (streams opened from now on are the discovery's requests).
+func (n *simNode) relayRun(name string, from int, msg protobuf.Message, target, nForward int, during func()) (parked bool) {
+	routetab.VerifSetFindTimeout(longFindTimeout)
+	defer routetab.VerifSetFindTimeout(shortFindTimeout)
+	ctx, cancel := context.WithCancel(context.Background())
+	defer cancel()
+	done := make(chan struct{})
+	base, logged := n.str.count(), n.reqLogged(target)
+	h := n.handler(name)
+	in := inStream(msg)
+	go func() {
+		defer close(done)
+		_ = h(ctx, p2p.Peer{Address: ids[from].overlay, Mode: full}, in)
+	}()
+	deadline := time.Now().Add(5 * time.Second)
+	seen := 0
+wait:
+	for {
+		select {
+		case <-done:
+			return false
+		default:
+		}
+		// every request is registered (one pending entry per neighbour asked) and every request that had
+		// to be sent (no request for (target, next) was logged before) has its stream: FindRoute is waiting
+		// (seen on two consecutive polls: Add registers the entry just before it logs the request)
+		if nForward > 0 && n.selfPending(target) >= nForward && n.str.count() >= base+n.reqLogged(target)-logged {
+			if seen++; seen >= 2 {
+				parked = true
+				break wait
+			}
+		} else {
+			seen = 0
+		}
+		if time.Now().After(deadline) {
+			break wait
+		}
+		time.Sleep(25 * time.Microsecond)
+	}
+	if parked {
+		during()
+		if n.selfPending(target) > 0 {
+			cancel()
+		}
+	} else {
+		cancel()
+	}
+	select {
+	case <-done:
+	case <-time.After(10 * time.Second):
+		panic("relay handler does not return")
+	}
+	return parked
 }
 
 func (n *simNode) close() {
